@@ -50,6 +50,10 @@ def plans_for(trace, reads, tier, rng, read_log=()):
             plans.append({"read_faults": [{"index": i, "errno": e}]})
     for kind in ("stat", "lstat"):
         plans.append({"read_faults": [{"kind": kind, "persistent": True, "errno": "EACCES"}]})
+    # the diagnostics themselves cannot be written (stderr on a full disk, a closed pipe): from the n-th write on
+    for nth in range(0, 6):
+        for e in ("ENOSPC", "EPIPE"):
+            plans.append({"stderr_fault": {"nth": nth, "errno": e}})
     if tier == "thorough":
         singles = [(k, n) for (k, n) in seen]
         extra = [("unlink", 0), ("rmdir", 0), ("createTrunc", 0), ("symlink", 0)]
@@ -75,7 +79,7 @@ def eval_task(task):
     impl_plan["budget"] = 3000
     r = putcheck.evaluate(world, driver(), plan=impl_plan, model_faults=faults if modelled else None,
                           oracles=("C01", "C16", "C04", "C03w"), want_states=False)   # C04: what was in the trash before is still whole; C03w: whatever candidate takes over, the info it writes is the one the spec wants there
-    delivered = any(rec[2] not in ("ok",) for rec in r["trace"]) or bool(plan.get("read_faults"))
+    delivered = any(rec[2] not in ("ok",) for rec in r["trace"]) or bool(plan.get("read_faults")) or bool(plan.get("stderr_fault"))
     out = {"key": (tuple(world["args"]), len(world["nodes"]), json.dumps(plan, sort_keys=True)),
            "tags": ["where:" + world["meta"][0]["where"], "kind:" + world["meta"][0]["kind"]] +
                    ["fault:%s:%s" % (f["op"], f["errno"]) for f in faults] +
@@ -87,10 +91,12 @@ def eval_task(task):
         out["bad"].append({"oracle": "terminates", "verdict": "did-not-terminate-within-budget",
                            "sig": dict(fault_sig(plan, world), oracle="terminates")})
     for name, v in r["oracle"].items():
+        if plan.get("stderr_fault") and name not in ("C01", "C04"):
+            continue                      # (exit status and diagnostics mean nothing when stderr is gone)
         if not v["ok"]:
             out["bad"].append({"oracle": name, "verdict": v["verdict"],
                                "sig": dict(fault_sig(plan, world), oracle=name, verdict=v["verdict"].split(" ")[0])})
-    if r["exc"] and not r["mismatch"]:
+    if r["exc"] and not r["mismatch"] and not plan.get("stderr_fault"):
         out["tags"].append("uncaught:" + str(r["exc"]))
         out["bad"].append({"oracle": "no-traceback", "verdict": "uncaught " + str(r["exc"]),
                            "sig": dict(fault_sig(plan, world), oracle="no-traceback", exc=r["exc"])})
